@@ -20,6 +20,7 @@ import (
 	"strings"
 
 	"github.com/cosmos/cosmos-sdk/store/prefix"
+	minttypes "github.com/jackalLabs/canine-chain/v4/x/jklmint/types"
 	"github.com/cosmos/cosmos-sdk/store/rootmulti"
 	storetypes "github.com/cosmos/cosmos-sdk/store/types"
 	sdk "github.com/cosmos/cosmos-sdk/types"
@@ -85,14 +86,14 @@ type c08World struct {
 
 const c08NUsers = 4
 
-var c08BankDenoms = []string{"ujkl", "uatom"}
+var c08BankDenoms = []string{"ujkl", "uatom", "awei"}
 
 func c08NewWorld() (*c08World, error) {
 	e, err := NewEnv()
 	if err != nil {
 		return nil, err
 	}
-	w := &c08World{e: e, addrTab: map[string]c08Addr{}, strs: map[string]uint64{"{}": 0}, denoms: map[string]uint64{"ujkl": 0, "uatom": 1}}
+	w := &c08World{e: e, addrTab: map[string]c08Addr{}, strs: map[string]uint64{"{}": 0}, denoms: map[string]uint64{"ujkl": 0, "uatom": 1, "awei": 2}}
 	w.modAddr = e.ModAddr(rnstypes.ModuleName)
 	w.polAddr, err = jtypes.GetPOLAccount()
 	if err != nil {
@@ -207,7 +208,7 @@ type c08Prim struct {
 type c08Bal struct {
 	Acct  uint64
 	Denom uint64
-	Amt   int64
+	Amt   string // decimal; "awei" balances do not fit int64
 }
 type c08Obs struct {
 	Height   int64
@@ -246,13 +247,19 @@ func (o *c08Obs) bid(index string) *c08BidRec {
 	}
 	return nil
 }
-func (o *c08Obs) bal(acct, denom uint64) int64 {
+func (o *c08Obs) bal(acct, denom uint64) *big.Int {
 	for _, b := range o.Bank {
 		if b.Acct == acct && b.Denom == denom {
-			return b.Amt
+			v, _ := new(big.Int).SetString(b.Amt, 10)
+			return v
 		}
 	}
-	return 0
+	return new(big.Int)
+}
+
+func c08ZStr(dec string) string {
+	v, _ := new(big.Int).SetString(dec, 10)
+	return c08Zbig(v)
 }
 
 func (w *c08World) observe() *c08Obs {
@@ -310,11 +317,11 @@ func (w *c08World) observe() *c08Obs {
 	all = append(all, w.users...)
 	for i, a := range all {
 		for _, d := range c08BankDenoms {
-			o.Bank = append(o.Bank, c08Bal{uint64(i), w.denoms[d], e.Bal(a, d)})
+			o.Bank = append(o.Bank, c08Bal{uint64(i), w.denoms[d], e.App.BankKeeper.GetBalance(e.Ctx, a, d).Amount.String()})
 		}
 	}
 	for _, c := range e.App.BankKeeper.GetAllBalances(e.Ctx, w.modAddr) {
-		if c.Denom != "ujkl" && c.Denom != "uatom" {
+		if c.Denom != "ujkl" && c.Denom != "uatom" && c.Denom != "awei" {
 			o.ModExtra[c.Denom] = c.Amount.BigInt()
 		}
 	}
@@ -352,7 +359,7 @@ func (o *c08Obs) coq() string {
 		in = append(in, a.coq())
 	}
 	for _, b := range o.Bank {
-		bk = append(bk, fmt.Sprintf("BL %d %d %s", b.Acct, b.Denom, c08Z(b.Amt)))
+		bk = append(bk, fmt.Sprintf("BL %d %d %s", b.Acct, b.Denom, c08ZStr(b.Amt)))
 	}
 	l := func(xs []string) string {
 		if len(xs) == 0 {
@@ -378,7 +385,7 @@ func c08DeltaCoq(pre, post *c08Obs) string {
 	var bk []string
 	for i, b := range post.Bank {
 		if pre.Bank[i] != b {
-			bk = append(bk, fmt.Sprintf("BL %d %d %s", b.Acct, b.Denom, c08Z(b.Amt)))
+			bk = append(bk, fmt.Sprintf("BL %d %d %s", b.Acct, b.Denom, c08ZStr(b.Amt)))
 		}
 	}
 	bs := "nil"
@@ -400,11 +407,22 @@ type c08Op struct {
 	Prim  bool   `json:"prim,omitempty"`
 	Denom string `json:"denom,omitempty"`
 	Amt   int64  `json:"amt,omitempty"`
+	Big   string `json:"big,omitempty"` // decimal amount beyond int64 (overrides Amt)
 	T     int    `json:"t,omitempty"` // other account (receiver / from)
 	TUp   bool   `json:"tup,omitempty"`
 	Rec   string `json:"rec,omitempty"`
 	Val   string `json:"val,omitempty"`
 	H     int64  `json:"h,omitempty"`
+}
+
+func (o c08Op) amount() sdk.Int {
+	if o.Big != "" {
+		v, ok := sdk.NewIntFromString(o.Big)
+		if ok {
+			return v
+		}
+	}
+	return sdk.NewInt(o.Amt)
 }
 
 func (w *c08World) msg(o c08Op) sdk.Msg {
@@ -415,13 +433,13 @@ func (w *c08World) msg(o c08Op) sdk.Msg {
 	case "RegisterOld":
 		return &rnstypes.MsgRegister{Creator: c, Name: o.Name, Years: o.Years, Data: o.Data}
 	case "List":
-		return &rnstypes.MsgList{Creator: c, Name: o.Name, Price: sdk.Coin{Denom: o.Denom, Amount: sdk.NewInt(o.Amt)}}
+		return &rnstypes.MsgList{Creator: c, Name: o.Name, Price: sdk.Coin{Denom: o.Denom, Amount: o.amount()}}
 	case "Delist":
 		return &rnstypes.MsgDelist{Creator: c, Name: o.Name}
 	case "Buy":
 		return &rnstypes.MsgBuy{Creator: c, Name: o.Name}
 	case "Bid":
-		return &rnstypes.MsgBid{Creator: c, Name: o.Name, Bid: sdk.Coin{Denom: o.Denom, Amount: sdk.NewInt(o.Amt)}}
+		return &rnstypes.MsgBid{Creator: c, Name: o.Name, Bid: sdk.Coin{Denom: o.Denom, Amount: o.amount()}}
 	case "CancelBid":
 		return &rnstypes.MsgCancelBid{Creator: c, Name: o.Name}
 	case "AcceptBid":
@@ -591,7 +609,7 @@ func (m *c08Mon) deltaIs(pre, post *c08Obs, acct uint64, want map[uint64]*big.In
 		if want[id] != nil {
 			exp.Mul(want[id], big.NewInt(sign))
 		}
-		if big.NewInt(post.bal(acct, id)-pre.bal(acct, id)).Cmp(exp) != 0 {
+		if new(big.Int).Sub(post.bal(acct, id), pre.bal(acct, id)).Cmp(exp) != 0 {
 			return false
 		}
 	}
@@ -649,8 +667,8 @@ func (m *c08Mon) check(pre *c08Obs, o c08Op, out string, post *c08Obs, hist inte
 		if s == nil {
 			s = new(big.Int)
 		}
-		if big.NewInt(post.bal(0, id)).Cmp(s) != 0 {
-			find("C09/escrow-differs-from-open-bids/"+kind, fmt.Sprintf("rns module holds %d%s but open bids sum to %s", post.bal(0, id), d, s))
+		if post.bal(0, id).Cmp(s) != 0 {
+			find("C09/escrow-differs-from-open-bids/"+kind, fmt.Sprintf("rns module holds %s%s but open bids sum to %s", post.bal(0, id), d, s))
 		}
 	}
 	for d, v := range post.ModExtra {
@@ -738,6 +756,12 @@ func (m *c08Mon) check(pre *c08Obs, o c08Op, out string, post *c08Obs, hist inte
 					find("C08/foreign-message-changed-listing/"+kind, fmt.Sprintf("a listing of live name %s owned by account %d was changed by a %s signed by account %d", pn.KeyStr, prev, kind, signer))
 				}
 			}
+		}
+	}
+	// (d') C09: the holder of an open bid can always take it back
+	if kind == "CancelBid" && out != OutOk {
+		if b := pre.bid(Spell(w.user(o.S), o.Up) + lower); b != nil {
+			find("C09/cancel-refused-with-open-bid", fmt.Sprintf("account %d holds an open bid on %q and its cancel was refused: the escrow cannot be taken back", signer, o.Name))
 		}
 	}
 	// (d) C09 per-message accounting
@@ -944,6 +968,15 @@ func (g *c08Run) fund() error {
 		if err := w.e.Fund(w.user(i), "uatom", amt/2); err != nil {
 			return err
 		}
+		if i != 3 { // an 18-decimal denom: 2^66 base units each (about 74 tokens)
+			c := sdk.NewCoins(sdk.NewCoin("awei", sdk.NewIntFromBigInt(new(big.Int).Lsh(big.NewInt(1), 66))))
+			if err := w.e.App.BankKeeper.MintCoins(w.e.Ctx, minttypes.ModuleName, c); err != nil {
+				return err
+			}
+			if err := w.e.App.BankKeeper.SendCoinsFromModuleToAccount(w.e.Ctx, minttypes.ModuleName, w.user(i), c); err != nil {
+				return err
+			}
+		}
 	}
 	return nil
 }
@@ -1069,6 +1102,17 @@ func (g *c08Run) deterministic() error {
 			{Kind: "Register", S: 3, Name: "poor.jkl", Years: 1, Data: ""}, {Kind: "Bid", S: 3, Name: c08N1, Denom: "ujkl", Amt: 1001}, {Kind: "Bid", S: 3, Name: c08N1, Denom: "ujkl", Amt: 1000}, {Kind: "Bid", S: 3, Name: c08N1, Denom: "ujkl", Amt: 1000},
 			{Kind: "Bid", S: 3, Name: c08N1, Denom: "ujkl,5uatom", Amt: 7}, {Kind: "Bid", S: 3, Name: c08N1, Denom: "ujkl", Amt: 0}, {Kind: "Bid", S: 3, Name: c08N1, Denom: "ujkl", Amt: -4}, {Kind: "CancelBid", S: 3, Name: c08N1}},
 	}
+	long := strings.Repeat("abcdefghij", 7) + ".jkl" // 70 characters in front of the TLD: nobody can register it, bids still escrow
+	two63, two63m1, two64p := "9223372036854775808", "9223372036854775807", "18446744073709551621"
+	hs = append(hs,
+		// a bid on a name nobody owns (and nobody can own) is escrowed and comes back in full on cancel
+		[]c08Op{{Kind: "Bid", S: C, Name: long, Denom: "ujkl", Amt: 321}, {Kind: "Bid", S: B, Name: "nobody.jkl", Denom: "uatom", Amt: 5}, {Kind: "CancelBid", S: C, Name: long},
+			{Kind: "CancelBid", S: B, Name: "nobody.jkl"}, {Kind: "CancelBid", S: C, Name: long}, reg(A, long)},
+		// bids of an 18-decimal denom around 2^63 base units: cancelled once, accepted once, never twice
+		[]c08Op{reg(A, c08N1), {Kind: "Bid", S: C, Name: c08N1, Denom: "awei", Big: two63}, {Kind: "Bid", S: B, Name: c08N1, Denom: "awei", Big: two64p}, {Kind: "CancelBid", S: C, Name: c08N1},
+			{Kind: "CancelBid", S: C, Name: c08N1}, {Kind: "AcceptBid", S: A, Name: c08N1, T: B}, {Kind: "AcceptBid", S: A, Name: c08N1, T: B}, {Kind: "CancelBid", S: B, Name: c08N1},
+			{Kind: "Bid", S: C, Name: c08N1, Denom: "awei", Big: two63m1}, {Kind: "Bid", S: A, Name: c08N1, Denom: "awei", Big: two63}, {Kind: "AcceptBid", S: B, Name: c08N1, T: A}, {Kind: "CancelBid", S: C, Name: c08N1},
+			{Kind: "List", S: A, Name: c08N1, Denom: "awei", Big: two64p}, {Kind: "Buy", S: C, Name: c08N1}})
 	for i, h := range hs {
 		if err := g.fresh(); err != nil {
 			return err
@@ -1182,6 +1226,12 @@ func (g *c08Run) random() error {
 					o.Name, o.S = b.FullStr, int(b.KeyAddr.ID-2)
 				}
 				o.Denom, o.Amt = PickOne(p, []string{"ujkl", "ujkl", "ujkl", "uatom", "nosuch", "ujkl,5uatom"}), PickOne(p, []int64{0, 1, 50, 100, 1000, 1001, 1_000_000, 2_000_000_000_000, -3})
+				if p.Chance(1, 8) {
+					o.Denom, o.Big = "awei", PickOne(p, []string{"9223372036854775807", "9223372036854775808", "18446744073709551621", "1000000000000000000"})
+				}
+				if p.Chance(1, 12) {
+					o.Name = strings.Repeat("abcdefghij", 7) + PickOne(p, []string{".jkl", ".ibc"})
+				}
 			case x < 68:
 				o.Kind = "CancelBid"
 				if len(pre.Bids) > 0 && p.Chance(5, 6) {
